@@ -44,10 +44,10 @@ claim('C19', 'proof',
 
 IDN = "Flags are a block of symbolic length K <= 2^10 (MiniSat; cvc5 reaches 2^20); every flag access first takes an arbitrary value unless the invariant pins the cell (my own flag; the flag of the skolem other running thread). shared_ptr/weak_ptr are modelled by a ghost generation (assumed library contract: expired() <=> no owner left). "
 claim('C05', 'proof',
-      "Contract of the claim loop over a symbolic-capacity flag array under interference: returned id < K, obtained by a 0->1 exchange performed by me, different from the id of any other running thread (skolem), unchanged on later calls without touching the flags.",
+      "Contract of the claim loop over a symbolic-capacity flag array under interference: returned id < K, obtained by a 0->1 exchange performed by me, different from the id of any other running thread (skolem), unchanged on later calls without touching the flags. Supplement (bounded, labelled): the same facts on the real flag array for the concrete capacities 1, 3 and 6 (groups idmk*), which also see array bounds and limits DERIVED from the capacity.",
       TB + IDN, "CBMC code contracts (loop contract over symbolic capacity, rely/guarantee on the flag cells)", "3 C05")
 claim('C14', 'proof',
-      "Safety part: the thread-exit destructor clears exactly the flag it owns (frame = that one cell), a flag becomes true only in the claim step of its new owner; a free slot that the loop visits is claimed. The release is proved for every behaviour of observers of the heartbeat (a promoted weak_ptr is an arbitrary constant of the proof). Probe-order coverage (a thread that finds all other ids taken reaches the one free slot within K probes) is a BOUNDED group (capacities 1..8, every start position, unwind 10 with unwinding assertions), labelled bounded. Termination of GetThreadID under contention is assumed (liveness).",
+      "Safety part: the thread-exit destructor clears exactly the flag it owns (frame = that one cell), a flag becomes true only in the claim step of its new owner; a free slot that the loop visits is claimed. The release is proved for every behaviour of observers of the heartbeat (a promoted weak_ptr is an arbitrary constant of the proof). Probe-order coverage (a thread that finds all other ids taken reaches the one free slot within K probes) is BOUNDED (labelled): symbolic capacities 1..8 with every start position (unwind 10 with unwinding assertions) and concrete capacities 1, 3, 6 on the real flag array (groups idmk*). Termination of GetThreadID under contention is assumed (liveness).",
       TB + IDN + "Assumed: fair termination of the claim loop; probe coverage beyond capacity 8 (no loop counter exists to state it as an invariant).", "CBMC code contracts (frame + guarantee assertions)", "3 C14")
 claim('C15', 'proof',
       "Exit-path ordering obligation (the reservation flag is released only after my heartbeat generation died), only SetID creates a generation, GetHeartBeat returns a weak reference to my live generation; owners held by the library (member, copies, moved-to objects, temporaries) are counted, the flag may be released only when none is left.",
